@@ -63,6 +63,9 @@ def values():
     for arr in [[1.5, 2.5], [0.0]]:
         out.append((gfapy.NumericArray(arr), None, "B", True))
     out.append((gfapy.NumericArray([1, 2.5]), "B", "B", False))
+    # a mixed array is refused wherever the element of the other kind stands (first, middle, last); a bool is not an integer
+    for arr in [[2.5, 1, 2], [1, 2.5, 2], [1, 2, 2.5], [True, 1, 2], [1, True, 2], [1, 2, True], [1.5, 2], [2, 1.5], [1.5, True], ["1", 2], [2, "1"], [None, 1]]:
+        out.append((gfapy.NumericArray(arr), "B", "B", False))
     out.append((gfapy.NumericArray([]), "B", "B", False))
     for b in [[0], [1, 2, 255], list(range(16))]:
         out.append((gfapy.ByteArray(b), None, "H", True)); out.append((gfapy.ByteArray(b), "H", "H", True))
